@@ -588,7 +588,36 @@ fn reuse_w<C: CellType>(backend: &str, level: u32, src: &str, env: &Env) -> Stri
                     let b = exec_with(&ex, Mode::Limited(3000), env);
                     let c = exec_with(&ex, Mode::Limited(7), env);
                     let d = exec_with(&ex, Mode::Limited(3000), env);
-                    if a == b && b == d { format!("same {}", c.len()) } else { format!("DIFF {a} / {b} / {d}") }
+                    if !(a == b && b == d) {
+                        return format!("DIFF {a} / {b} / {d}");
+                    }
+                    // mixed modes on the same executor, each compared with a fresh executor: the unlimited
+                    // run only if the program finished within the budget above (it halts)
+                    let fresh = |m: Mode| exec_with(&<$t>::create(src, level).ok().unwrap(), m, env);
+                    let c0 = fresh(Mode::Limited(7));
+                    if c != c0 {
+                        return format!("DIFF limited(7) after limited(3000): {c} / fresh {c0}");
+                    }
+                    if a.starts_with("ok 1 ") {
+                        let e1 = exec_with(&ex, Mode::Exec, env);
+                        let e0 = fresh(Mode::Exec);
+                        if e1 != e0 {
+                            return format!("DIFF execute after execute_limited: {e1} / fresh {e0}");
+                        }
+                        let l1 = exec_with(&ex, Mode::Limited(5), env);
+                        let l0 = fresh(Mode::Limited(5));
+                        if l1 != l0 {
+                            return format!("DIFF execute_limited(5) after execute: {l1} / fresh {l0}");
+                        }
+                        // and the other order on a second executor
+                        let ex2 = <$t>::create(src, level).ok().unwrap();
+                        let e2 = exec_with(&ex2, Mode::Exec, env);
+                        let l2 = exec_with(&ex2, Mode::Limited(5), env);
+                        if e2 != e0 || l2 != l0 {
+                            return format!("DIFF execute then execute_limited(5): {e2} / {l2} / fresh {e0} / {l0}");
+                        }
+                    }
+                    format!("same {}", c.len())
                 }
                 Err(e) => format!("create-{}", err_string(&e)),
             }
